@@ -1488,3 +1488,131 @@ Theorem sm_check_delivery ops rs k sid rid tok : sm_check ops rs = true ->
 Proof.
   intros H Ho Hr. destruct (sm_lookup_origin _ _ _ _ _ _ _ H Ho Hr) as [[o Hg]|Hx]; [discriminate|exact Hx].
 Qed.
+
+(* ================================================================ old_orphans_count = number of ids orphaned for more than 1 s *)
+Definition swap (e : N * N) : N * N := (snd e, fst e).
+Definition CInv (o : otrack) : Prop :=
+  NoDup (map fst (ot_orphans o)) /\ ot_by o = map swap (ot_orphans o).
+
+Lemma CInv_insert o sid now : CInv o -> aget sid (ot_orphans o) = None -> CInv (ot_insert o sid now).
+Proof.
+  intros [Hnd Hby] Hn. unfold ot_insert, aput. rewrite (arem_absent _ _ Hn).
+  assert (Hnin : ~ In (now, sid) (ot_by o)).
+  { rewrite Hby. intros H. apply in_map_iff in H as ([s t] & E & Hin). unfold swap in E. cbn in E. inv_some E.
+    apply (aget_None_notin _ _ Hn). change sid with (fst (sid, now)). now apply in_map. }
+  rewrite (existsb_pair_false _ _ _ Hnin). split; cbn [ot_orphans ot_by map fst].
+  - constructor; [now apply aget_None_notin|assumption].
+  - now rewrite Hby.
+Qed.
+
+Lemma filter_all {A} (f : A -> bool) l : (forall x, In x l -> f x = true) -> filter f l = l.
+Proof.
+  induction l as [|x r IH]; cbn [filter]; [reflexivity|]. intros H.
+  rewrite (H x (or_introl eq_refl)), IH; [reflexivity|]. intros y Hy. apply H. now right.
+Qed.
+
+Lemma pair_eqb_swap s v t sid : pair_eqb (swap (s, v)) (t, sid) = (v =? t) && (s =? sid).
+Proof. reflexivity. Qed.
+
+Lemma filter_swap_nokey l t sid : ~ In sid (map fst l) ->
+  filter (fun e => negb (pair_eqb e (t, sid))) (map swap l) = map swap l.
+Proof.
+  intros H. apply filter_all. intros x Hx. apply in_map_iff in Hx as ([s v] & <- & Hin).
+  rewrite pair_eqb_swap. destruct (N.eqb_spec s sid).
+  - subst. exfalso. apply H. change sid with (fst (sid, v)). now apply in_map.
+  - now rewrite Bool.andb_false_r.
+Qed.
+
+Lemma CInv_remove o sid : CInv o -> CInv (ot_remove o sid).
+Proof.
+  intros [Hnd Hby]. unfold ot_remove. destruct (aget sid (ot_orphans o)) as [t|] eqn:E; [|split; assumption].
+  split; cbn [ot_orphans ot_by]; [now apply NoDup_keys_arem|]. rewrite Hby. clear Hby.
+  induction (ot_orphans o) as [|[s v] r IH]; cbn [aget] in E; [discriminate|].
+  cbn [map fst] in Hnd. inversion Hnd as [|? ? Hn Hr]; subst. cbn [arem map filter].
+  rewrite pair_eqb_swap. destruct (N.eqb_spec s sid).
+  - subst. inv_some E. rewrite N.eqb_refl. cbn [andb negb].
+    rewrite (arem_absent sid r) by (destruct (aget sid r) eqn:G; [|reflexivity];
+      exfalso; apply Hn; apply aget_In_keys; congruence).
+    now apply filter_swap_nokey.
+  - rewrite Bool.andb_false_r. cbn [negb map]. now rewrite (IH Hr E).
+Qed.
+
+Lemma CInv_step t m st o n : BInv t t m st -> CInv (th_ot t) -> CInv (th_ot (fst (th_step t (TOp o n)))).
+Proof.
+  intros [R1 _ K _ _ _] HC. rewrite th_step_ot. destruct R1 as (A1 & B1 & C1 & D1).
+  destruct o as [rid tok|rid|sid|tok]; try assumption.
+  - rewrite C1. destruct (mget rid (hm_r2s m)) as [sid|] eqn:G; [|assumption].
+    destruct (k_r _ _ K _ _ G) as [tk Hh].
+    assert (Hno : smem sid (hm_orphans m) = false).
+    { destruct (smem sid (hm_orphans m)) eqn:E; [|reflexivity]. destruct (k_o _ _ K _ E). congruence. }
+    apply CInv_insert; [assumption|]. apply ot_contains_none. now rewrite D1.
+  - destruct (ot_contains (th_ot t) sid); [now apply CInv_remove|assumption].
+Qed.
+
+Lemma char_run ops : forall t m st, BInv t t m st -> CInv (th_ot t) -> Forall op_in_range (untimed ops) ->
+  CInv (th_ot (fst (th_run t ops))) /\ TRel (fst (th_run t ops)) (fst (hm_run m (untimed ops))).
+Proof.
+  induction ops as [|x ops IH]; intros t m st HB HC Hr; cbn [th_run untimed flat_map hm_run fst].
+  - split; [assumption|apply (b_r1 _ _ _ _ HB)].
+  - destruct x as [o n|n].
+    + change (untimed (TOp o n :: ops)) with (o :: untimed ops) in Hr. inversion Hr as [|? ? Ho Hr']; subst.
+      assert (Hn : match o with OpOrphan _ => n <= n | _ => True end) by (destruct o; try exact I; lia).
+      destruct (BInv_step t t m st o n n HB Ho Hn) as [HB' _].
+      pose proof (CInv_step t m st o n HB HC) as HC'.
+      cbn [app]. fold (untimed ops). cbn [hm_run].
+      destruct (th_step t (TOp o n)) as [t1 x1]. destruct (hm_step m o) as [m1 y1]. cbn [fst snd] in *.
+      specialize (IH _ _ _ HB' HC' Hr'). destruct (th_run t1 ops) as [t2 xs]. destruct (hm_run m1 (untimed ops)) as [m2 ys].
+      exact IH.
+    + cbn [th_step app]. fold (untimed ops). change (untimed (TCount n :: ops)) with (untimed ops) in Hr.
+      specialize (IH _ _ _ HB HC Hr). destruct (th_run t ops) as [t2 xs]. exact IH.
+Qed.
+
+Lemma CInv_new : CInv ot_new.
+Proof. split; [constructor|reflexivity]. Qed.
+
+Lemma filter_map_swap (f : N * N -> bool) l :
+  List.length (filter f (map swap l)) = List.length (filter (fun e => f (swap e)) l).
+Proof. induction l as [|e r IH]; cbn [map filter]; [reflexivity|]. destruct (f (swap e)); cbn [List.length]; now rewrite IH. Qed.
+
+(* In every state of the timed map reached by operations (any clock; lookups in range):
+   - an id is in the orphanage (with its orphaning time) iff the untimed model has it orphaned,
+     each id once;
+   - old_orphans_count at clock [now] = the number of orphaned ids whose orphaning time [tm]
+     satisfies tm < now - 1 s (or tm = now - 1 s and the id is not 32767: the code's range bound). *)
+Theorem old_count_char ops : Forall op_in_range (untimed ops) ->
+  let t := fst (th_run th_new ops) in
+  NoDup (map fst (ot_orphans (th_ot t))) /\
+  (forall sid, (exists tm, orphaned_since t sid = Some tm) <->
+               smem sid (hm_orphans (fst (hm_run hm_new (untimed ops)))) = true) /\
+  (forall now, th_old_orphans_count t now = N.of_nat (List.length (old_ids t now))) /\
+  (forall now sid, In sid (old_ids t now) <->
+     exists tm, orphaned_since t sid = Some tm /\
+                (tm < now - old_age_ns \/ (tm = now - old_age_ns /\ sid < 32767))).
+Proof.
+  intros Hr. destruct (char_run ops th_new hm_new [] BInv_new CInv_new Hr) as [[Hnd Hby] HT].
+  cbn zeta. set (t := fst (th_run th_new ops)) in *. split; [exact Hnd|]. split; [|split].
+  - intros sid. destruct HT as (_ & _ & _ & D). rewrite <- D. unfold orphaned_since, ot_contains.
+    destruct (aget sid (ot_orphans (th_ot t))); split; intros H; eauto; try discriminate. now destruct H.
+  - intros now. unfold th_old_orphans_count, ot_older_than, old_ids. rewrite Hby, filter_map_swap, map_length.
+    reflexivity.
+  - intros now sid. unfold old_ids, orphaned_since. rewrite in_map_iff. split.
+    + intros ([s tm] & E & Hin). cbn in E. subst s. apply filter_In in Hin as [Hin Ho]. cbn [fst snd] in Ho.
+      exists tm. split; [now apply In_aget_nodup|].
+      unfold is_old in Ho. cbn [fst snd] in Ho. apply Bool.orb_true_iff in Ho as [Ho|Ho].
+      * left. now apply N.ltb_lt.
+      * right. apply Bool.andb_true_iff in Ho as [H1 H2]. apply N.eqb_eq in H1. apply N.ltb_lt in H2. tauto.
+    + intros (tm & Hg & Ho). exists (sid, tm). split; [reflexivity|]. apply filter_In. split; [now apply aget_In|].
+      unfold is_old. cbn [fst snd]. apply Bool.orb_true_iff. destruct Ho as [Ho|[H1 H2]].
+      * left. now apply N.ltb_lt.
+      * right. apply Bool.andb_true_iff. split; [now apply N.eqb_eq|now apply N.ltb_lt].
+Qed.
+
+(* hence the orphaner's tick: it ends the connection iff more than 1024 ids have been orphaned for
+   more than 1 s (in the sense of [old_ids]) *)
+Theorem tick_char ops now : Forall op_in_range (untimed ops) ->
+  let t := fst (th_run th_new ops) in
+  orphaner_tick_breaks t now = true <-> old_count_threshold < N.of_nat (List.length (old_ids t now)).
+Proof.
+  intros Hr. cbn zeta. destruct (old_count_char ops Hr) as (_ & _ & Hc & _). cbn zeta in Hc.
+  unfold orphaner_tick_breaks. rewrite Hc. apply N.ltb_lt.
+Qed.
